@@ -218,6 +218,12 @@ theorem select_mulVec_apply_of_notMem {k k' : ℕ} (ι : Fin k' → Fin k)
   simp only [Matrix.mulVec, dotProduct, select]
   exact Finset.sum_eq_zero (fun j _ => by simp [hi j])
 
+/-- the interpolation of the whole tensor: one block per ordered particle pair, each block treated
+with the same `E` and `P` (the particle axes are `Array` axes of the `Polynomial`). -/
+def interp {q q' k k' np : ℕ} (E : Matrix (Fin q') (Fin q) ℝ) (P : Matrix (Fin k) (Fin k') ℝ)
+    (A : Fin np → Fin np → Matrix (Fin q) (Fin k) ℝ) : Fin np → Fin np → Matrix (Fin q') (Fin k') ℝ :=
+  fun a b => E * A a b * P
+
 end Embedding
 
 /-! ## C. Flat row-major index arithmetic -/
